@@ -10,8 +10,13 @@ import vcheck
 vcheck.ensure_makefile()
 PY
 (cd coq && timeout 7200 make -j16 -k 2>&1 | tail -15)
-[ -f harness/Cargo.lock ] || cp /repo/Cargo.lock harness/Cargo.lock
-(cd harness && cargo build --release --offline 2>&1 | tail -3)
+python3 - <<'PY'
+import sys
+sys.path.insert(0, 'tools')
+import vcheck
+rc, out, exe = vcheck.build_harness()
+print('harness', 'ok' if rc == 0 else 'FAILED: ' + out[-2000:])
+PY
 python3 - <<'PY'
 import sys, glob, os
 sys.path.insert(0, 'tools')
